@@ -50,7 +50,7 @@ pub open spec fn accepts(s: TS, x: u32) -> bool { x == s.curr || x == s.last }
 impl TokenStore {
     pub open spec fn view(&self) -> TS { TS { curr: self.curr_secret, last: self.last_secret, lr: inst_nanos(self.last_refresh) } }
 
-//@begin fn src/token.rs impl:TokenStore new props=C06
+//@begin fn src/token.rs impl:TokenStore new props=C06,C01
     pub fn new() -> (r: TokenStore)
         ensures r.view().lr == clock(),
     {
@@ -70,10 +70,10 @@ impl TokenStore {
     }
 //@end
 
-//@begin fn src/token.rs impl:TokenStore checkout props=C06
+//@begin fn src/token.rs impl:TokenStore checkout props=C06,C01
     pub fn checkout(&mut self, addr: IpAddr) -> (t: Token)
         ensures exists|f1: u32, f2: u32| final(self).view() == #[trigger] step(old(self).view(), clock(), f1, f2), // @C06.rotation_is_lazy_step
-            t == H(addr, final(self).curr_secret), // @C06.token_bound_to_ip_and_current_secret
+            t == H(addr, final(self).curr_secret), // @C06.token_bound_to_ip_and_current_secret @C01.token_bound_to_ip_and_current_secret
     {
         self.refresh_check();
 
@@ -81,10 +81,10 @@ impl TokenStore {
     }
 //@end
 
-//@begin fn src/token.rs impl:TokenStore checkin props=C06
+//@begin fn src/token.rs impl:TokenStore checkin props=C06,C01
     pub fn checkin(&mut self, addr: IpAddr, token: Token) -> (r: bool)
         ensures exists|f1: u32, f2: u32| final(self).view() == #[trigger] step(old(self).view(), clock(), f1, f2), // @C06.rotation_is_lazy_step
-            r == (token == H(addr, final(self).curr_secret) || token == H(addr, final(self).last_secret)), // @C06.accept_iff_current_or_previous_secret_for_this_ip
+            r == (token == H(addr, final(self).curr_secret) || token == H(addr, final(self).last_secret)), // @C06.accept_iff_current_or_previous_secret_for_this_ip @C01.accept_iff_current_or_previous_secret_for_this_ip
     {
         self.refresh_check();
 
@@ -92,7 +92,7 @@ impl TokenStore {
     }
 //@end
 
-//@begin fn src/token.rs impl:TokenStore refresh_check props=C06
+//@begin fn src/token.rs impl:TokenStore refresh_check props=C06,C01
     pub fn refresh_check(&mut self)
         ensures exists|f1: u32, f2: u32| final(self).view() == #[trigger] step(old(self).view(), clock(), f1, f2), // @C06.rotation_is_lazy_step
     {
@@ -116,7 +116,7 @@ impl TokenStore {
 //@end
 }
 
-//@begin fn src/token.rs - intervals_passed props=C06
+//@begin fn src/token.rs - intervals_passed props=C06,C01
 pub fn intervals_passed(last_refresh: Instant) -> (r: u64)
     ensures r == intervals(inst_nanos(last_refresh), clock()), // @C06.interval_count
 {
@@ -128,7 +128,7 @@ pub fn intervals_passed(last_refresh: Instant) -> (r: u64)
 }
 //@end
 
-//@begin fn src/token.rs - generate_token_from_addr props=C06
+//@begin fn src/token.rs - generate_token_from_addr props=C06,C01
 pub fn generate_token_from_addr(addr: IpAddr, secret: u32) -> (t: Token)
     ensures t == H(addr, secret),
 {
@@ -139,7 +139,7 @@ pub fn generate_token_from_addr(addr: IpAddr, secret: u32) -> (t: Token)
 }
 //@end
 
-//@begin fn src/token.rs - validate_token_from_addr props=C06
+//@begin fn src/token.rs - validate_token_from_addr props=C06,C01
 pub fn validate_token_from_addr(addr: IpAddr, token: Token, secret_one: u32, secret_two: u32) -> (r: bool)
     ensures r == (token == H(addr, secret_one) || token == H(addr, secret_two)), // @C06.validated_against_both_secrets_of_this_ip
 {
@@ -156,7 +156,7 @@ pub fn validate_token_from_addr(addr: IpAddr, token: Token, secret_one: u32, sec
 }
 //@end
 
-//@begin fn src/token.rs - validate_token_from_addr_v4 props=C06
+//@begin fn src/token.rs - validate_token_from_addr_v4 props=C06,C01
 pub fn validate_token_from_addr_v4(v4_addr: Ipv4Addr, token: Token, secret: u32) -> (r: bool)
     ensures r == (token == H4(v4_addr, secret)),
 {
@@ -164,7 +164,7 @@ pub fn validate_token_from_addr_v4(v4_addr: Ipv4Addr, token: Token, secret: u32)
 }
 //@end
 
-//@begin fn src/token.rs - validate_token_from_addr_v6 props=C06
+//@begin fn src/token.rs - validate_token_from_addr_v6 props=C06,C01
 pub fn validate_token_from_addr_v6(v6_addr: Ipv6Addr, token: Token, secret: u32) -> (r: bool)
     ensures r == (token == H6(v6_addr, secret)),
 {
@@ -214,7 +214,7 @@ pub proof fn lemma_tstep(s: TS, x: u32, t0: int, t1: int, t2: int, f1: u32, f2: 
 //@props C06
 pub proof fn lemma_valid_10min(s: TS, x: u32, t0: int, now: int)
     requires tinv(s, x, t0, now), now - t0 <= I()
-    ensures accepts(s, x) // @C06.valid_at_least_10_minutes
+    ensures accepts(s, x) // @C06.valid_at_least_10_minutes @C01.valid_at_least_10_minutes
 {}
 /// dead by 30 minutes: the checkin at time `now` first performs step, then validates
 //@props C06
